@@ -146,7 +146,8 @@ class World:
     def expect_table(self, real, ref, oracle, check_type=True, what=''):
         msg = coherence(real, self.absent_id())
         if msg:
-            self.fail('coherence', '%s after %s: %s' % (what, oracle, msg))
+            # owned by the operation's property and (suffix rule) by C05
+            self.fail(oracle + '.incoherent', '%s: %s' % (what, msg))
         d = diff_ref(Snap(real), ref, check_type)
         if d:
             self.fail(oracle, (what + ': ' if what else '') + d)
@@ -161,7 +162,7 @@ class World:
         this one slot (after an aborted in-place call)"""
         msg = coherence(slot.real, self.absent_id())
         if msg:
-            self.fail('coherence', 'after aborted in-place call: ' + msg)
+            self.fail('aborted_inplace.incoherent', 'after aborted in-place call: ' + msg)
         slot.ref = ref_from_snap(Snap(slot.real), slot.ref)
         self.stats['model.adopted'] += 1
 
